@@ -215,6 +215,9 @@ func TestC14(t *testing.T) {
 		{"e", func(w, n string) (ref.Seg, bool) { return ref.Seg{Quoted: true}, true }},
 	}
 	maxn := 6
+	if thorough() {
+		maxn = 7
+	}
 	idx := 0
 	var rec func(prefix []int)
 	rec = func(prefix []int) {
@@ -265,7 +268,7 @@ func TestC14(t *testing.T) {
 	// (b) random longer words
 	n := 60000
 	if thorough() {
-		n = 3000000
+		n = 30000000
 	}
 	n /= nsh
 	prop := func(rt *rapid.T) {
